@@ -40,7 +40,7 @@ import StunVerif.Props.SrcFnIntegrity
 #print axioms StunVerif.SrcFnPoll.foldl_congr_mem
 #print axioms StunVerif.SrcFnPoll.minWait_as_map
 #print axioms StunVerif.SrcFnPoll.src_agentPoll
-#print axioms StunVerif.SrcFnIntegrity.FaultEq.rfl'
+#print axioms StunVerif.SrcFnIntegrity.FaultEq.refl
 #print axioms StunVerif.SrcFnIntegrity.FaultEq.of_faults
 #print axioms StunVerif.SrcFnIntegrity.FaultEq.eq_of_not_fault
 #print axioms StunVerif.SrcFnIntegrity.match_ite
